@@ -193,6 +193,10 @@ func c14Seeds(rng *rand.Rand) map[string][][]byte {
 		}
 	}
 	add("auth", encAuth2(util.EFITime{Year: 2024}, 24+5, 0x0200, 0x0EF1, signature.EFI_CERT_TYPE_PKCS7_GUID, []byte{1, 2, 3, 4, 5}))
+	// descriptors that declare far more than they hold (64 MiB .. 4 GiB)
+	for _, l := range []uint32{0x04000000, 0x10000000, 0x7fffffff, 0xffffffff} {
+		add("auth", encAuth2(util.EFITime{Year: 2024}, l, 0x0200, 0x0EF1, signature.EFI_CERT_TYPE_PKCS7_GUID, []byte{1, 2, 3, 4, 5}))
+	}
 	fs, _ = filepath.Glob("/repo/tests/data/boot/Boot*")
 	for _, f := range fs {
 		if b, err := os.ReadFile(f); err == nil && len(b) > 4 {
